@@ -11,7 +11,7 @@ PLAN_ENTRY = {'stages': [
         {'name': 'stations', 'mc': [{'module': 'MC_C01', 'cfg': {'quick': 'MC_C01_quick.cfg', 'thorough': 'MC_C01_thorough.cfg'}, 'workers': 8}], 'gens': ['gen_c01_random', 'gen_c01_free'], 'trace': 'Trace_Curve'}], 'assumptions': ['TLC evaluates the L1 operators of Curve.tla correctly (exact integer arithmetic)', 'harness projection: coordinates/lengths quantised to 2^-16 lattice units, directions to 2^-14, infinitesimals realised as next_up/next_down', 'edges have integer length (axis-parallel / Pythagorean) times a power-of-two scale; irrational edge lengths are outside the exact domain']}
 
 CLAIM = {
-    'text': 'TLC enumerates every input vertex sequence of up to 3 points on a 4x4 (quick) / 5x5 (thorough) lattice with integer-length steps, including repeated points and steps merged by a one-unit tolerance, x tolerance kind x force_closed x 2D/3D (three liftings) x power-of-two scales, and for each curve every half-lattice arc length from below 0 to above L plus every vertex length +-1 ulp (as an infinitesimal), the same places by fraction, by iteration and front/back; the laws of the length/position operators are model-checked; every case is run through Curve2/Curve3 and TLC judges vertex list, closedness, cumulative lengths and every station (None exactly outside [0,L]; index+fraction reproduce l; exact rational point; edge direction or the vertex rule; normal) against the L1 operators. Seeded random 4..40-vertex lattice curves with Pythagorean edges extend the instance sizes. General lattice polylines (irrational edge lengths, a lead of up to 2^13 units before short oblique edges; op free) are judged by derived observations: exact rational point at eighths of every edge, unit direction to 2^-44 parallel to and along the edge, index + fraction reproduce point and length, unit perpendicular normal in 2D; listings with repeated joints are included.',
+    'text': 'TLC enumerates every input vertex sequence of up to 3 points on a 4x4 (quick) / 5x5 (thorough) lattice with integer-length steps, including repeated points and steps merged by a one-unit tolerance, x tolerance kind x force_closed x 2D/3D (three liftings) x power-of-two scales, and for each curve every half-lattice arc length from below 0 to above L plus every vertex length +-1 ulp (as an infinitesimal), the same places by fraction, by iteration and front/back; the laws of the length/position operators are model-checked; every case is run through Curve2/Curve3 and TLC judges vertex list, closedness, cumulative lengths and every station (None exactly outside [0,L]; index+fraction reproduce l; exact rational point; edge direction or the vertex rule; normal) against the L1 operators. Seeded random 4..40-vertex lattice curves with Pythagorean edges extend the instance sizes. General lattice polylines (irrational edge lengths, a lead of up to 2^13 units before short oblique edges; op free) are judged by derived observations: exact rational point at eighths of every edge, unit direction to 2^-44 parallel to and along the edge, index + fraction reproduce point and length, unit perpendicular normal in 2D; listings with repeated joints are included. Half of the seeded records are translated by up to 2^17 lattice units (the harness takes the offset off every reported point).',
     'design_ref': 'DESIGN.md section 6 C01',
     'note': 'Trusted: TLC, harness projection (2^-16 unit quantisation, next_up/next_down for the infinitesimals). Edge lengths are integers times 2^k; irrational edge lengths are not in the exact domain. Vertices where adjacent directions cancel are exempt from the direction clause.',
     'technique': 'TLA+ spec (L1 semantics) + TLC: bounded model checking, TLC-generated cases replayed into engeom, TLC trace validation of recorded observations',
